@@ -10,6 +10,7 @@ import Driver.Engine
 import Driver.Wire
 import Driver.Compress
 import Driver.Hardlink
+import Driver.Verify
 
 namespace Driver
 
@@ -24,6 +25,7 @@ def dispatch (toks : List String) : String :=
       else if area == "wire" then Driver.Wire.handle toks
       else if area == "compress" || area == "sparse" then Driver.Compress.handle toks
       else if area == "hl" then Driver.Hardlink.handle toks
+      else if area == "verify" then Driver.Verify.handle toks
       else none
     r.getD "bad-op"
 
